@@ -54,7 +54,11 @@ const tieRule = "every discovered Get/Update/Pull triple, Get/Pull pair and keye
 	"beforeListen yield point; race: by timing), two-writer sessions (duel, and every third keyed session: two Updates of one register from two clients, the earlier one held at the " +
 	"value.set.beforeSend / coll.update.beforeSend yield point between storing and announcing its value while the later one runs to completion; 1-2 open streams), " +
 	"first-use sessions (rows +factory: routers built with the generated WithXxxApiClientFactory; every register session starts with the first request for the name parked inside its " +
-	"factory call while other first requests complete), a keyed row whose model starts with records and an armed collector (hailpb +collector: generated timestamps are all older than the keep-alive), tween sessions (servers with a Tween field): the observation trace is fed to the Lean register-server model run as an acceptor " +
+	"factory call while other first requests complete), window sessions (one request - an Update, the opening of a Pull, the cancellation of a Pull - parked at one of 13 yield points of " +
+	"pkg/resource and internal/minibus while a second request of another client runs: Update before its store x Update; Update inside bus.Send / Bus.collect x open / cancel; open before its listener is registered x " +
+	"Update / cancel; cancel inside listener.stop x Update / open; in keyed sessions Update x Update of the same or another item, Update x Delete, Delete x Update), tidy sessions (a Pull opened while an Update is held inside " +
+	"Bus.collect removing a cancelled subscription), stall sessions (one reader stops calling Recv while 9-11 Updates are made and another stream is read promptly, then resumes), one update mask in ten of every third register " +
+	"session names a field the resource does not have, a collection-wide List RPC between the writes of keyed sessions, a keyed row whose model starts with records and an armed collector (hailpb +collector: generated timestamps are all older than the keep-alive), tween sessions (servers with a Tween field): the observation trace is fed to the Lean register-server model run as an acceptor " +
 	"(driverC14) and its verdict per observation is compared with the independent Go monitor's; composite sessions (registers composed of collection items, discovered by shape and a probe): " +
 	"the Lean composed-register model runs as a SIMULATOR and its predicted response listing and per-stream message bursts are compared with what the stack delivered; " +
 	"non-trivial = a session with more than 6 observations; distinct = distinct (row, triple, kind, session)"
@@ -64,6 +68,10 @@ const monRule = "the five statements of the property evaluated directly on the o
 	"response's (projected) value and the request's name, nothing else appears; a rejected Update leaves Get unchanged and emits nothing; panics are violations. " +
 	"Two overlapping writers: both answered, the register is the later store, each value appears on every open stream (the later store's event first, compared with what the stream showed before both; " +
 	"then the overtaken one's), and - the recorded finding .../two-writers/stream-left-on-overtaken-value - every established stream ends on the register's value. " +
+	"Windows: two overlapping Updates of which the held one had not stored yet are two register writes one after the other (the held one last: rejected with Aborted, or stored on top); " +
+	"in every other window the END state is judged - Get is the stored value, every open stream whose subscription is known to exist has ended on it, the next Update appears on all of them. " +
+	"A stalled reader is owed nothing while it is stalled; every Update is still one register write (an Update answered with an error leaves Get unchanged), the other streams still show every change; " +
+	"on resuming the stalled stream may deliver any in-order subsequence of what was announced and must end on the register. A collection-wide List changes no item. " +
 	"First use through a factory router: the overtaken first request is judged as served after the requests that overtook it, on the same register. " +
 	"Stream verdicts of a session that made a multi-item write (two or more items in the payload or changed in the response) while a stream was open carry /after-multi-item-write. " +
 	"Composite sessions: an own fold over a plain map predicts the response (only the written items change) and, per stream, the exact burst (one composition per item write, equal neighbours suppressed; " +
@@ -232,7 +240,9 @@ func runChildSide(f lib.Flags, res *lib.Result, key string) {
 			for q := 0; q < f.N(4, 32); q++ {
 				exec(t, sessionID{Kind: "window", Triple: t.key(), Seed: f.Seed, Seq: q, Steps: 2 + q%3})
 			}
-			// a reader that stops reading while Updates keep coming
+		}
+		// a reader that stops reading while Updates (model-level writes for Get/Pull pairs) keep coming
+		if compositeShape(t) == nil {
 			for q := 0; q < f.N(3, 12); q++ {
 				exec(t, sessionID{Kind: "stall", Triple: t.key(), Seed: f.Seed, Seq: q, Steps: q % 3})
 			}
@@ -400,6 +410,7 @@ func run(f lib.Flags, res *lib.Result) {
 		tie.Distribution[k] = v
 	}
 	runRemovePrefix(f, res)
+	runGauTie(f, res)
 	res.Extra["triples"] = tnames
 	if len(allUnconfirmed) > 8 {
 		allUnconfirmed = allUnconfirmed[:8]
@@ -440,6 +451,9 @@ func replay(f lib.Flags) int {
 	b, _ := json.Marshal(in)
 	if in["kind"] == "rmprefix" {
 		return replayRemovePrefix(in)
+	}
+	if in["kind"] == "gau" {
+		return replayGau(in)
 	}
 	var sid sessionID
 	if err := json.Unmarshal(b, &sid); err != nil || sessionKinds[sid.Kind] == nil {
